@@ -5,6 +5,7 @@ use std::io::{BufRead, BufReader, Write};
 use std::panic::{catch_unwind, AssertUnwindSafe};
 
 mod util;
+mod val;
 mod wire;
 
 fn main() {
@@ -36,6 +37,7 @@ fn main() {
         let toks: Vec<&str> = line.split_whitespace().collect();
         let r = catch_unwind(AssertUnwindSafe(|| match mode {
             "wire" => wire::run(&toks),
+            "val" => val::run(&toks),
             _ => panic!("unknown mode"),
         }));
         let s = match r {
